@@ -27,11 +27,19 @@ def parseTarget (j : Json) : Target :=
     mro := (arr j "mro").map parseDict,
     metaMro := (arr j "meta").map parseDict }
 
+def parseSlot (s : String) : Slot :=
+  match s.splitOn ":" with
+  | ["absent"] => .absent
+  | ["user"] => .user
+  | ["none"] => .noneVal
+  | ["b", ty] => .builtin ty
+  | _ => .other
+
 def parseTy (j : Json) : Ty :=
   match j.getObjVal? "user" with
   | .ok (.num _) =>
-    .user { id := nat j "user", getitem := bool j "getitem", iter := bool j "iter", next := bool j "next",
-            bool := bool j "bool", len := bool j "len" }
+    .user { id := nat j "user", getitem := parseSlot (str j "getitem"), iter := parseSlot (str j "iter"),
+            next := parseSlot (str j "next"), bool := parseSlot (str j "bool"), len := parseSlot (str j "len") }
   | _ => .builtin (str j "builtin")
 
 def evStr : Ev → String
@@ -49,24 +57,12 @@ def jGet (r : GetResult) : Json :=
   jobj [("found", jopt (fun (e : Entry) => jnat e.id) r.found), ("viaGet", jbool r.viaGet),
         ("trace", jarr (r.trace.map jnat))]
 
-def parseGet (j : Json) : GetResult :=
-  { found := match j.getObjVal? "found" with
-      | .ok (.num _) => some { name := "__iter__", tag := .plain, id := nat j "found" }
-      | _ => none,
-    viaGet := bool j "viaGet", trace := nats j "trace" }
-
 def cfg : Cfg := JediModel.Props.C13.genCfg
-
-/-- result of the `self._obj.__iter__` fetch: computed by the model from the target description -/
-def iterAttrOf (j : Json) : GetResult :=
-  match j.getObjVal? "target" with
-  | .ok t => pyGetattr (parseTarget t) "__iter__"
-  | _ => parseGet (obj j "iterAttr")
 
 def handle (j : Json) : Json :=
   match str j "op" with
   | "static" =>
-    match getattrStatic cfg (parseTarget (obj j "target")) (str j "name") with
+    match getattrStatic (parseTarget (obj j "target")) (str j "name") with
     | none => .null
     | some (e, g) => jobj [("id", jnat e.id), ("isGet", jbool g)]
   | "getattr" => jGet (pyGetattr (parseTarget (obj j "target")) (str j "name"))
@@ -93,15 +89,20 @@ def handle (j : Json) : Json :=
     let (r, ev) := mixedSimpleGetitem cfg (parseTy (obj j "ty")) (bool j "unsafe")
     jobj [("reached", jbool r), ("events", jarr (ev.map (jstr ∘ evStr)))]
   | "iterlist" =>
-    let (o, ev) := pyIterList cfg (parseTy (obj j "ty")) (iterAttrOf j) (bool j "annotated")
+    let (o, ev) := pyIterList cfg (parseTy (obj j "ty")) (parseSlot (str j "iter")) (bool j "annotated")
     jobj [("outcome", jstr (iterStr o)), ("events", jarr (ev.map (jstr ∘ evStr)))]
-  | "hasiter" => jarr ((hasIter cfg (parseTy (obj j "ty")) (iterAttrOf j)).map (jstr ∘ evStr))
+  | "hasiter" =>
+    jobj [("result", jbool (hasIter (parseSlot (str j "iter")) (parseSlot (str j "getitem")))),
+          ("events", jarr [])]
   | "pyiter" =>
-    jarr ((compiledPyIter cfg (parseTy (obj j "ty")) (iterAttrOf j) (bool j "annotated")).map
+    jarr ((compiledPyIter cfg (parseTy (obj j "ty")) (parseSlot (str j "iter")) (bool j "annotated")).map
       (jstr ∘ evStr))
-  | "bool" => jarr ((pyBool cfg (parseTy (obj j "ty"))).map (jstr ∘ evStr))
-  | "flags" => jobj [("metaHitReportsGet", jbool cfg.metaHitReportsGet),
-                     ("hasIterExecutes", jbool cfg.hasIterExecutes), ("boolExecutes", jbool cfg.boolExecutes)]
+  | "bool" =>
+    let (r, ev) := pyBool cfg (parseTy (obj j "ty")) (bool j "safe")
+    jobj [("reached", jbool r), ("events", jarr (ev.map (jstr ∘ evStr)))]
+  | "builtinbool" => jbool (hasBuiltinBool cfg (parseTy (obj j "ty")))
+  | "config" => jobj [("boolLookupOrder", jarr (cfg.boolLookupOrder.map jstr)),
+                      ("builtinMethodTypes", jarr (cfg.builtinMethodTypes.map jstr))]
   | op => jobj [("error", jstr ("unknown op " ++ op))]
 
 def main : IO Unit := Proto.run handle
